@@ -27,7 +27,8 @@ import elementpath.aliases as ta
 
 from elementpath.exceptions import ElementPathError, ElementPathValueError
 from elementpath.namespaces import XML_ID, XML_LANG, XML_NAMESPACE
-from elementpath.helpers import Patterns, is_idrefs, is_xml_codepoint, round_number
+from elementpath.helpers import Patterns, is_idrefs, is_xml_codepoint, round_number, \
+    split_white_spaces
 from elementpath.datatypes import DateTime10, DateTime, Date10, Date, \
     Float, DoubleProxy, Time, Duration, DayTimeDuration, YearMonthDuration, \
     UntypedAtomic, AnyURI, QName, NCName, Id, ArithmeticProxy, NumericProxy, AbstractDateTime, \
@@ -1625,7 +1626,7 @@ def select__id(self: XPathFunction, context: ta.ContextType = None) -> Iterator[
         context = self.context
 
     idrefs = {x for item in self[0].select(context)
-              for x in self.string_value(item).split() if Id.is_valid(x)}
+              for x in split_white_spaces(self.string_value(item)) if Id.is_valid(x)}
 
     if context is None:
         raise self.missing_context()
@@ -1691,14 +1692,15 @@ def select__idref(self: XPathFunction, context: ta.ContextType = None) \
 
             text = element.value.text
             if text and is_idrefs(text) and \
-                    any(v in text.split() for x in ids for v in x.split()):
+                    any(v in split_white_spaces(text) for x in ids for v in split_white_spaces(x)):
                 yield element
                 continue
 
             if element.attributes:
                 for attr in element.attributes:  # pragma: no cover
                     if attr.name != XML_ID and isinstance(attr.value, str) and \
-                            any(v in attr.value.split() for x in ids for v in x.split()):
+                            any(v in split_white_spaces(attr.value)
+                                for x in ids for v in split_white_spaces(x)):
                         yield element
                         break
 
